@@ -106,6 +106,14 @@ fn main() {
             let seed: u64 = arg_after(&args, "--seed").and_then(|s| s.parse().ok()).unwrap_or(0);
             c12::featdigest(tier, seed);
         }
+        "dump-sparse" => {
+            // debugging aid: prints a member of the sparse family and what the oracle says about it
+            let l = mid::sparse(args[2].parse().unwrap_or(0));
+            let o = mid::Oracle::from_formulas(&l);
+            let und: Vec<usize> = (0..o.n).filter(|i| o.grounded[*i] == 2).collect();
+            eprintln!("statements {} undecided in grounded {:?} complete {} two-valued {} stable {}", o.n, und, o.complete.len(), o.two.len(), o.stable.len());
+            println!("{}", l.text(None, ("\n", "", "")));
+        }
         "case" => isolated_child(&args[2], replay_dispatch),
         "replay" => {
             let text = std::fs::read_to_string(&args[2]).unwrap_or_else(|_| machinery_error("cannot read replay file"));
